@@ -186,6 +186,10 @@ pub struct FnSpec {
     /// above, 3 `#[inline]` below, 4 doc comment between attribute and fn, 5 `#[allow(..)]`
     /// above and doc below, 6 `pub(crate)` visibility
     pub decor: u8,
+    /// how the body produces its value: 0 tail expression, 1 `return expr;`, 2 guard clause that
+    /// returns early on the path every call takes, 3 (Result only) `?` on the inner result and
+    /// `return Ok(..)`
+    pub body_style: u8,
 }
 
 impl FnSpec {
@@ -217,6 +221,7 @@ impl FnSpec {
             via_template: false,
             arg_names: Vec::new(),
             decor: 0,
+            body_style: 0,
         }
     }
 
@@ -383,7 +388,30 @@ impl FnSpec {
             let _ = writeln!(out, "{indent}    vrt::gate({g}).await;");
         }
         let body_fn = if self.ret == RetKind::Plain { "body_plain" } else { "body_result" };
-        let _ = writeln!(out, "{indent}    vrt::{body_fn}({}, {}, &[{}])", self.id, self.pad, parts.join(", "));
+        let call = format!("vrt::{body_fn}({}, {}, &[{}])", self.id, self.pad, parts.join(", "));
+        let is_res = self.ret != RetKind::Plain;
+        match (self.body_style, is_res) {
+            // every variant keeps a typed tail expression, so the body also type-checks where an
+            // expansion inlines the block instead of calling it as a closure
+            (1, false) => {
+                let _ = writeln!(out, "{indent}    if vrt::yes() {{\n{indent}        return {call};\n{indent}    }}\n{indent}    String::new()");
+            }
+            (1, true) => {
+                let _ = writeln!(out, "{indent}    if vrt::yes() {{\n{indent}        return {call};\n{indent}    }}\n{indent}    Err(String::new())");
+            }
+            (2, false) => {
+                let _ = writeln!(out, "{indent}    let __v = {call};\n{indent}    if !__v.is_empty() {{\n{indent}        return __v;\n{indent}    }}\n{indent}    String::new()");
+            }
+            (2, true) => {
+                let _ = writeln!(out, "{indent}    let __v = {call};\n{indent}    if __v.is_ok() || __v.is_err() {{\n{indent}        return __v;\n{indent}    }}\n{indent}    Err(String::new())");
+            }
+            (3, true) => {
+                let _ = writeln!(out, "{indent}    let __v = {call}?;\n{indent}    if vrt::yes() {{\n{indent}        return Ok(__v);\n{indent}    }}\n{indent}    Err(String::new())");
+            }
+            _ => {
+                let _ = writeln!(out, "{indent}    {call}");
+            }
+        }
         let _ = writeln!(out, "{indent}}}");
         if self.via_template {
             let tys: Vec<String> = self.args.iter().map(|t| t.text()).collect();
@@ -926,6 +954,50 @@ pub fn static_corpus() -> Vec<FnSpec> {
             }
         }
     }
+    // bodies that leave through `return`, a guard clause or `?` (the expansion must still store)
+    for &fl in &flavours {
+        for style in 1..=3u8 {
+            for &ret in &[RetKind::Plain, RetKind::ResultShort] {
+                if style == 3 && ret == RetKind::Plain {
+                    continue;
+                }
+                let i = id();
+                let mut s = FnSpec::new(i, &format!("ret_{}_{}_{:04}", fl_tag(fl), style, i), "ret", fl);
+                s.ret = ret;
+                s.body_style = style;
+                v.push(s);
+            }
+        }
+    }
+    // tagged caches bounded by max_memory only (no entry limit), order-sensitive policies
+    for &fl in &[Flavour::Global, Flavour::Async] {
+        for &p in &[Policy::Fifo, Policy::Lru, Policy::Arc] {
+            let i = id();
+            let mut s = FnSpec::new(i, &format!("memtag_{}_{:04}", fl_tag(fl), i), "memtag", fl);
+            s.policy = Some(p);
+            s.max_memory = Some(("\"200\"".to_string(), 200));
+            s.pad = 1;
+            s.tags = vec!["memtag".into()];
+            v.push(s);
+        }
+    }
+    // registry labels on functions that do not always store (Result, cache_if)
+    for (k, &fl) in [Flavour::Global, Flavour::Async, Flavour::Global, Flavour::Async].iter().enumerate() {
+        for j in 0..2 {
+            let i = id();
+            let mut s = FnSpec::new(i, &format!("regr_{}_{:04}", fl_tag(fl), i), "regr", fl);
+            if j == 0 {
+                s.ret = RetKind::ResultShort;
+            } else {
+                s.cache_if = true;
+            }
+            s.tags = vec![format!("s{}", (k + j) % 6)];
+            if k >= 2 {
+                s.events = vec![format!("s{}", (k + 3) % 6)];
+            }
+            v.push(s);
+        }
+    }
     // Result through a one-parameter alias named `Result` (free functions only)
     for &fl in &flavours {
         for k in 0..2 {
@@ -1203,6 +1275,7 @@ pub fn random_spec(r: &mut Rng, id: u32, registry_mode: bool) -> FnSpec {
     s.attr_rotation = r.below(8) as usize;
     s.destructure = r.chance(1, 3);
     s.decor = if r.chance(1, 2) { r.below(7) as u8 } else { 0 };
+    s.body_style = if r.chance(1, 3) { 1 + r.below(3) as u8 } else { 0 };
     s
 }
 
